@@ -172,6 +172,10 @@ def run(rep: common.Report, tier: str, seed: int, replay=None) -> int:
     # coherence length far from the device size: the dimensionless mesh is then tiny (edges ~1e-5) or huge (edges ~1e4)
     specs.append(dict(shape="box", holes=1, terminals=2, smooth=0, max_edge_length=0.8, xi=3e4))
     specs.append(dict(shape="ellipse", holes=0, terminals=0, smooth=0, max_edge_length=0.7, xi=2e-4))
+    # devices moved after meshing (in place, along one axis / both): the mesh must still tile the moved film
+    specs.append(dict(shape="box", holes=1, terminals=2, smooth=0, max_edge_length=0.9, xi=0.5, moved=(1.7, 0.0)))
+    specs.append(dict(shape="ellipse", holes=0, terminals=2, smooth=0, max_edge_length=0.9, xi=0.5, moved=(0.0, -2.2)))
+    specs.append(dict(shape="box", holes=2, terminals=0, smooth=0, max_edge_length=0.9, xi=1.0, moved=(0.6, 0.8)))
     texts, infos = [], []
     for mi, spec in enumerate(specs):
         try:
@@ -191,6 +195,8 @@ def run(rep: common.Report, tier: str, seed: int, replay=None) -> int:
                 continue
             rep.violation("terminals placed across the film outline touch no mesh boundary (the mesh does not cover the film)",
                           {"mesh": mi, **spec})
+        if spec.get("moved"):
+            dev.translate(dx=spec["moved"][0], dy=spec["moved"][1], inplace=True)
         U, kite, edge_tris, okm = check_mesh(rep, dev, spec, mi)
         rep.nontrivial((spec["shape"], spec["holes"], spec["terminals"], spec["smooth"], spec["max_edge_length"],
                         spec.get("hole_kind", "convex"), spec.get("pad", False)))
